@@ -41,7 +41,9 @@ class AlignmentType(Enum):
 
 
 def make_alignment_tuple(bam_index, alignment):
-    return alignment.reference_start, alignment.reference_end, bam_index, alignment
+    # unmapped records that carry a position have no reference end
+    reference_end = alignment.reference_end if alignment.reference_end is not None else alignment.reference_start
+    return alignment.reference_start, reference_end, bam_index, alignment
 
 
 class BAMOnlineMerger:
